@@ -70,6 +70,10 @@ def rules(ctx):
     unserved_is_a_sum(ctx, "R3")
     # R4 frames: post-search stages never touch formations / unserved counters
     sites = common.sites_of(ctx, SCHEDULE)
+    # R5: the unserved-passenger cache the search optimises is rebuilt whenever formations change (shared with C09)
+    common.coupled_updates(ctx, "R5", SCHEDULE, common.SCHEDULE_PAIRS, floor=13,
+                           only_pairs={("train_formations", "unserved_passengers"), ("unserved_passengers", "train_formations")})
+    common.lost_update_rule(ctx, "R5", SCHEDULE, sites)
     for fn in ("set_next_day_transitions", "reassign_end_depots_consistent_with_transitions", "improve_depots", "recompute_transitions_for"):
         common.frame_rule(ctx, "R4", SCHEDULE, sites, S(fn), ["train_formations", "unserved_passengers", "vehicles"],
                           "%s keeps train formations, vehicles and the unserved-passenger counters" % fn)
